@@ -61,7 +61,7 @@ func Run(ctx *core.Ctx) {
 	// ---- M3: random cases recorded, validated by TLC
 	RandomTraces(ctx, real, exp, ctx.Pick(4000, 40000))
 	// ---- the JavaScript counterparts
-	JSCounterparts(ctx)
+	JSCounterparts(ctx, exp)
 	wg.Wait()
 	ctx.Extra["cases_violating_per_signature"] = reporter.Counts()
 }
@@ -71,7 +71,11 @@ func Run(ctx *core.Ctx) {
 
 // Feature is the structural feature of a contract violation of directive d
 // (text = the text that reached it, out = what it produced).
-func Feature(d Dir, text, out, fault string) string {
+func Feature(d Dir, text, out, fault string) string { return FeatureFor("go", d, text, out, fault) }
+
+// FeatureFor is Feature for the given engine family (the single-character
+// probe of InputClass exists for the Go renderer only).
+func FeatureFor(engine string, d Dir, text, out, fault string) string {
 	f := "directive=" + d.Name + ","
 	switch {
 	case (fault == "raw-special" || fault == "decodes-wrong") && (d.Name == "escapeHtml" || TagOf(d.Name) != ""):
@@ -99,7 +103,7 @@ func Feature(d Dir, text, out, fault string) string {
 			}
 		}
 	case fault == "decodes-wrong" && (d.Name == "escapeJsString" || d.Name == "json" || d.Name == "escapeUri"):
-		f += fault + "," + InputClass(d, text)
+		f += fault + "," + InputClass(d, text, engine == "go")
 	default:
 		f += fault
 	}
@@ -112,7 +116,7 @@ func Feature(d Dir, text, out, fault string) string {
 var FailsAlone func(d Dir, c string) bool
 
 // InputClass names the kind of character responsible for a decoding failure.
-func InputClass(d Dir, text string) string {
+func InputClass(d Dir, text string, probe bool) string {
 	classOf := func(c string) string {
 		r, _ := utf8.DecodeRuneInString(c)
 		switch {
@@ -133,7 +137,7 @@ func InputClass(d Dir, text string) string {
 		chars = append(chars, text[i:i+n])
 		i += n
 	}
-	if FailsAlone != nil && len(text) <= 4096 {
+	if probe && FailsAlone != nil && len(text) <= 4096 {
 		seen := map[string]bool{}
 		for _, c := range chars {
 			if !seen[c] {
@@ -195,7 +199,7 @@ func report(ctx *core.Ctx, engine string, chain []Dir, val map[string]interface{
 	if len(chain) == 2 {
 		in = mid
 	}
-	sig := core.Sig{Family: engine, Feature: Feature(d, in, out, fault)}
+	sig := core.Sig{Family: engine, Feature: FeatureFor(engine, d, in, out, fault)}
 	if !reporter.First(sig) {
 		return
 	}
@@ -209,6 +213,8 @@ func report(ctx *core.Ctx, engine string, chain []Dir, val map[string]interface{
 	}
 	if engine == "go" {
 		rc.Template = OffTemplate(ChainText(chain))
+	} else if engine == "js" {
+		rc.Template = JSTemplate(ChainText(chain), false)
 	} else {
 		rc.JSCall = JSName(d.Name)
 	}
